@@ -30,8 +30,9 @@ from vlib.gen import c06_models as gen
 from vlib.gen import kinetic
 
 MATRIX_TOL = 1e-12  # of the column scale
-FIT_TOL = 1e-7  # cost and optimised parameters, relative
+FIT_TOL = 1.5e-7  # cost and parameters after one optimisation step, relative: x max(10, cond clp matrix) x cond(J)
 ARRAY_TOL = 1e-6  # labelled result arrays after the fit, of the scale of the labelled slice
+SAME_POINT_TOL = 1e-8  # cost and labelled result arrays of the twin evaluated at the same parameters
 COND_MAX = 1e6
 NFEV = 4
 
@@ -302,7 +303,8 @@ def align_to(a, b, where):
     return b.transpose(*a.dims)
 
 
-def compare_arrays(name, a, b, where, clause, mc_labels):
+def compare_arrays(name, a, b, where, clause, mc_labels, tol=None, weight=None, floor_scale=0.0):
+    tol = ARRAY_TOL if tol is None else tol
     check(set(a.dims) == set(b.dims), "fit.dims", lambda: f"{where}: {name}: dims {a.dims} vs {b.dims}")
     b = align_to(a, b, f"{where}: {name}")
     check(a.shape == b.shape, "fit.shape", lambda: f"{where}: {name}: {a.shape} vs {b.shape}")
@@ -315,10 +317,17 @@ def compare_arrays(name, a, b, where, clause, mc_labels):
     check(bool(np.array_equal(np.isnan(x), np.isnan(y))), clause, lambda: f"{where}: {name}: NaN pattern differs")
     x, y = np.where(both_nan, 0.0, x), np.where(both_nan, 0.0, y)
     if name.endswith("_phase"):
-        # the branch of the phase (multiples of 2 pi) is not part of the statement
+        # the branch of the phase (multiples of 2 pi) is not part of the statement; a phase is as well defined as
+        # the amplitude it belongs to is large (weight = amplitude / largest amplitude, same dims)
         d = np.abs(np.angle(np.exp(1j * (x - y))))
-        return float(d.max()) if d.size else 0.0
-    var_scale = max(float(np.abs(x).max(initial=0.0)), float(np.abs(y).max(initial=0.0)))
+        w = np.ones_like(d) if weight is None else np.abs(weight.transpose(*a.dims).values) / max(float(np.abs(weight.values).max()), 1e-300)
+        worst = float((d * w).max()) if d.size else 0.0
+        if worst > 10 * tol:
+            idx = np.unravel_index(int(np.argmax(d * w)), d.shape)
+            at = {dname: (a.coords[dname].values[i].item() if dname in a.coords else int(i)) for dname, i in zip(a.dims, idx)}
+            check(False, clause, lambda: f"{where}: '{name}' differs between the twins by {d[idx]:.3e} rad (relative amplitude {w[idx]:.3e}) at {at}")
+        return worst
+    var_scale = max(float(np.abs(x).max(initial=0.0)), float(np.abs(y).max(initial=0.0)), float(floor_scale))
     # scale of each labelled slice (along the label-like dimensions), floored at 1e-3 of the variable's scale
     label_dims = [i for i, dname in enumerate(a.dims) if (_is_label_dim(a, dname) and a.coords[dname].dtype.kind in "OUS") or dname.startswith("component_")]
     other = tuple(i for i in range(x.ndim) if i not in label_dims)
@@ -327,7 +336,7 @@ def compare_arrays(name, a, b, where, clause, mc_labels):
     err = np.abs(x - y)
     rel = np.where(scale > 0, err / np.where(scale > 0, scale, 1.0), np.where(err > 0, np.inf, 0.0))
     worst = float(rel.max()) if rel.size else 0.0
-    if worst > ARRAY_TOL:
+    if worst > tol:
         idx = np.unravel_index(int(np.argmax(rel)), rel.shape)
         sc = float(np.broadcast_to(scale, rel.shape)[idx])
         at = {dname: (a.coords[dname].values[i].item() if dname in a.coords else int(i)) for dname, i in zip(a.dims, idx)}
@@ -338,19 +347,24 @@ def compare_arrays(name, a, b, where, clause, mc_labels):
     return worst
 
 
-def clause_of(name, mc_labels):
+def clause_of(name, mc_labels, prefix="fit.by_label"):
     for lab in sorted(mc_labels, key=len, reverse=True):
         name = name.replace(lab, "*")
-    return f"fit.by_label:{name}"
+    return f"{prefix}:{name}"
 
 
-def compare_result_datasets(ra, rb, where, mc_labels):
+def compare_result_datasets(ra, rb, where, mc_labels, tol=None, prefix="fit.by_label"):
     names_a = {n for n in list(ra.data_vars) + list(ra.coords) if not SKIP_VARIABLES.search(n)}
     names_b = {n for n in list(rb.data_vars) + list(rb.coords) if not SKIP_VARIABLES.search(n)}
     check(names_a == names_b, "fit.variables", lambda: f"{where}: only in base {sorted(names_a - names_b)}, only in twin {sorted(names_b - names_a)}")
     worst = 0.0
     for n in sorted(names_a):
-        worst = max(worst, compare_arrays(n, ra[n], rb[n], where, clause_of(n, mc_labels), mc_labels))
+        weight = None
+        if n.endswith("_phase") and n[: -len("_phase")] + "_associated_spectra" in ra:
+            weight = ra[n[: -len("_phase")] + "_associated_spectra"]
+        # a residual is as accurate as the data it is the small difference of
+        floor = 1e3 * float(np.abs(ra["data"].values).max()) if ("residual" in n and "data" in ra) else 0.0
+        worst = max(worst, compare_arrays(n, ra[n], rb[n], where, clause_of(n, mc_labels, prefix), mc_labels, tol, weight, floor))
     return worst
 
 
@@ -382,16 +396,46 @@ def internal_label_consistency(r, where):
             same(r.baseline, r.clp.sel(clp_label=labs[0]), "fit.baseline_is_clp_of_label", "baseline")
 
 
-def run_fit(case, spec, data, ds_order):
+def run_fit(case, spec, data, ds_order, start=None, nfev=NFEV):
     from glotaran.optimization.optimize import optimize
     from glotaran.project import Scheme
 
-    model, start = build(spec, case["parameters"], perturb=case["perturb"])
-    scheme = Scheme(model, start, {ds: data[ds] for ds in ds_order}, maximum_number_function_evaluations=NFEV)
+    model, perturbed = build(spec, case["parameters"], perturb=case["perturb"])
+    scheme = Scheme(model, perturbed if start is None else start, {ds: data[ds] for ds in ds_order}, maximum_number_function_evaluations=nfev)
     return optimize(scheme, verbose=False, raise_exception=True)
 
 
+def _decade(v):
+    return "0" if v == 0 else f"1e{int(np.floor(np.log10(v)))}"
+
+
+def _values(result):
+    return {p.label: p.value for p in result.optimized_parameters.all()}
+
+
+def _same_point(ra, rc, where, cond, dnorm2, mc_labels):
+    """The twin evaluated at the same parameters: cost and every labelled result array, tight tolerance."""
+    pa, pc = _values(ra), _values(rc)
+    check(set(pa) == set(pc), "fit.parameter_labels", "")
+    check(all(abs(pa[k] - pc[k]) <= 1e-12 * abs(pa[k]) for k in pa), "fit.selfcheck_same_point", lambda: f"{where}: one evaluation moved the parameters")
+    cdiff = abs(ra.cost - rc.cost) / max(ra.cost, rc.cost, 1e-300)
+    check(abs(ra.cost - rc.cost) <= SAME_POINT_TOL * max(ra.cost, rc.cost) + 1e-13 * dnorm2, "fit.cost_at_same_parameters",
+          lambda: f"{where}: cost {ra.cost!r} vs {rc.cost!r} (relative {cdiff:.2e}; cond {cond:.1e})")
+    check(set(ra.data) == set(rc.data), "fit.datasets", "")
+    worst = 0.0
+    for ds in ra.data:
+        internal_label_consistency(ra.data[ds], f"{ds} (base, {where})")
+        internal_label_consistency(rc.data[ds], f"{ds} (twin, {where})")
+        worst = max(worst, compare_result_datasets(ra.data[ds], rc.data[ds], f"{ds} ({where})", mc_labels, SAME_POINT_TOL))
+    return cdiff, worst
+
+
 def prop_twin_fit(case):
+    """optimize() on the same seeded data, model and twin:
+    (a) one evaluation at the same perturbed start values, and the twin at the optimum the model reached after
+        NFEV evaluations: cost and every labelled result array agree (by label) to SAME_POINT_TOL;
+    (b) one optimisation step (2 evaluations) from the same start values: cost and parameters agree to
+        FIT_TOL x max(10, cond of the clp problem) x cond(J at the start), skipped when that exceeds 1e-3."""
     with warnings.catch_warnings():
         warnings.simplefilter("ignore")
         with expect_ok("fit.build"):
@@ -402,40 +446,73 @@ def prop_twin_fit(case):
             cond = worst_condition(case, model, truth)
             if not np.isfinite(cond) or cond > COND_MAX:
                 raise Discard("clp matrix cond > 1e6")
+            _, start = build(case["spec"], case["parameters"], perturb=case["perturb"])
+            cond_start = worst_condition(case, model, start)
+            if not np.isfinite(cond_start) or cond_start > COND_MAX:
+                raise Discard("clp matrix cond > 1e6 at the start values")
             data = simulate_data(case, model, truth)
         for ds, d in data.items():
             if not np.all(np.isfinite(d.data.values)):
                 raise Discard("non-finite simulated data")
-        with expect_ok("fit.optimize"):
-            ra = run_fit(case, case["spec"], data, list(case["spec"]["dataset"]))
-        with expect_ok("fit.optimize_twin"):
-            rb = run_fit(case, twin_spec, data, list(twin_spec["dataset"]))
+        base_order, twin_order = list(case["spec"]["dataset"]), list(twin_spec["dataset"])
         dnorm2 = 0.5 * sum(float((d.data.values**2).sum()) for d in data.values())
-        check(abs(ra.cost - rb.cost) <= FIT_TOL * max(ra.cost, rb.cost) + 1e-13 * dnorm2, "fit.cost",
-              lambda: f"cost {ra.cost!r} vs {rb.cost!r} (relative {abs(ra.cost - rb.cost) / max(ra.cost, rb.cost):.2e}; cond {cond:.1e})")
-        pa = {p.label: p.value for p in ra.optimized_parameters.all()}
-        pb = {p.label: p.value for p in rb.optimized_parameters.all()}
-        check(set(pa) == set(pb), "fit.parameter_labels", "")
-        moved = 0.0
-        for p in ra.initial_parameters.all():
-            moved = max(moved, abs(pa[p.label] - p.value) / max(abs(p.value), 1e-12))
-        pdiff = 0.0
-        for lab in pa:
-            rel = abs(pa[lab] - pb[lab]) / max(abs(pa[lab]), abs(pb[lab]), 1e-3)
-            pdiff = max(pdiff, rel)
-            check(rel <= FIT_TOL, "fit.parameters", lambda: f"{lab}: {pa[lab]!r} vs {pb[lab]!r} (relative {rel:.2e}; cond {cond:.1e})")
-        check(set(ra.data) == set(rb.data), "fit.datasets", "")
         mc_labels = list(case["spec"]["megacomplex"])
-        worst = 0.0
-        for ds in ra.data:
-            internal_label_consistency(ra.data[ds], f"{ds} (base)")
-            internal_label_consistency(rb.data[ds], f"{ds} (twin)")
-            worst = max(worst, compare_result_datasets(ra.data[ds], rb.data[ds], ds, mc_labels))
-    def decade(v):
-        return "0" if v == 0 else f"1e{int(np.floor(np.log10(v)))}"
-
-    tags = tags_of(case) + [f"cond:1e{int(np.log10(cond))}", "moved" if moved > 1e-3 else "not_moved",
-                            f"observed_parameter_difference:{decade(pdiff)}", f"observed_array_difference:{decade(worst)}"]
+        # (a1) same start values
+        with expect_ok("fit.optimize"):
+            r0 = run_fit(case, case["spec"], data, base_order, nfev=1)
+        with expect_ok("fit.optimize_twin"):
+            t0 = run_fit(case, twin_spec, data, twin_order, nfev=1)
+        cdiff0, worst0 = _same_point(r0, t0, "start values", max(cond, cond_start), dnorm2, mc_labels)
+        # (a2) the optimum of the model
+        with expect_ok("fit.optimize"):
+            ra = run_fit(case, case["spec"], data, base_order)
+        pa = _values(ra)
+        if not all(np.isfinite(v) for v in pa.values()) or not np.isfinite(ra.cost):
+            raise Discard("fit of the base model diverged")
+        cond_opt = worst_condition(case, model, ra.optimized_parameters)
+        if not np.isfinite(cond_opt) or cond_opt > COND_MAX:
+            raise Discard("clp matrix cond > 1e6 at the optimised parameters")
+        with expect_ok("fit.optimize_twin"):
+            rc = run_fit(case, twin_spec, data, twin_order, start=ra.optimized_parameters, nfev=1)
+        cdiff1, worst1 = _same_point(ra, rc, "optimised values", max(cond, cond_opt), dnorm2, mc_labels)
+        moved = max((abs(pa[p.label] - p.value) / max(abs(p.value), 1e-12) for p in ra.initial_parameters.all()), default=0.0)
+        # (b) one optimisation step from the same start values.  The optimiser differentiates the objective by forward
+        # differences (relative step 1.5e-8), which turns the rounding differences between the twins' objectives
+        # (observed <= 1e-13) into relative differences of order 1e-8 x cond(J) of the step: the tolerance is scaled
+        # with the conditioning of the (column-normalised) Jacobian at the start values, as the fit reports it.
+        J = np.asarray(r0.jacobian, dtype=float) if r0.jacobian is not None else np.zeros((0, 0))
+        cond_j = 1.0
+        if J.size:
+            nrm = np.linalg.norm(J, axis=0)
+            if np.any(nrm == 0) or not np.all(np.isfinite(J)):
+                cond_j = np.inf
+            else:
+                sv = np.linalg.svd(J / nrm, compute_uv=False)
+                cond_j = float(sv[0] / sv[-1]) if sv[-1] > 0 else np.inf
+        # relative error of the forward-difference Jacobian: eps x cond(clp problem) / 1.5e-8; ten times that, times cond(J)
+        tol_fit = FIT_TOL * max(10.0, max(cond, cond_start)) * max(1.0, cond_j)
+        compared = tol_fit <= 1e-3
+        if compared:
+            with expect_ok("fit.optimize"):
+                ra2 = run_fit(case, case["spec"], data, base_order, nfev=2)
+            with expect_ok("fit.optimize_twin"):
+                rb2 = run_fit(case, twin_spec, data, twin_order, nfev=2)
+            p2, q2, p0 = _values(ra2), _values(rb2), _values(r0)
+            tdiff = abs(ra2.cost - rb2.cost) / max(ra2.cost, rb2.cost, 1e-300)
+            check(abs(ra2.cost - rb2.cost) <= tol_fit * max(ra2.cost, rb2.cost, r0.cost) + 1e-13 * dnorm2, "fit.cost",
+                  lambda: f"cost after one step {ra2.cost!r} vs {rb2.cost!r} (relative {tdiff:.2e}, tolerance {tol_fit:.1e}; cond J {cond_j:.1e})")
+            pdiff = 0.0
+            for lab in p2:
+                rel = abs(p2[lab] - q2[lab]) / max(abs(p2[lab]), abs(q2[lab]), abs(p0[lab]), 1e-3)
+                pdiff = max(pdiff, rel)
+                check(rel <= tol_fit, "fit.parameters", lambda: f"{lab} after one step: {p2[lab]!r} vs {q2[lab]!r} (relative {rel:.2e}, tolerance {tol_fit:.1e}; cond J {cond_j:.1e})")
+    tags = tags_of(case) + [f"cond:1e{int(np.log10(max(cond, cond_opt, cond_start)))}", "moved" if moved > 1e-3 else "not_moved",
+                            f"observed_same_point_cost_difference:{_decade(max(cdiff0, cdiff1))}",
+                            f"observed_same_point_array_difference:{_decade(max(worst0, worst1))}",
+                            "steps_compared" if compared else "steps_not_compared(tolerance > 1e-3)"]
+    if compared:
+        tags += [f"observed_step_cost_difference:{_decade(tdiff)}", f"observed_step_parameter_difference:{_decade(pdiff)}",
+                 f"observed_step_parameter_difference_over_tolerance:{_decade(pdiff / tol_fit)}"]
     return {"nontrivial": perm_nontrivial(case), "tags": tags}
 
 
